@@ -1,5 +1,6 @@
 import FgaVerif.Proofs.Weights
 import FgaVerif.Proofs.WeightsPump
+import FgaVerif.Proofs.WAssignPost
 /-! # C04 — weights equal the true maximum tuple-hop depth (specification side)
 
     `Spec/Weights.lean` is a *specification*, not a port: the Go weight assignment (`AssignWeights`,
@@ -37,8 +38,34 @@ import FgaVerif.Proofs.WeightsPump
     * `every_weight_witnessed` needs no hypothesis at all: whatever the iteration writes is witnessed
       by a walk, so the result never over-approximates (this is what makes the fixed point the least one).
 
+    And clauses about the **algorithm itself** (the port `Model/WAssign.lean` of `AssignWeights`, tied to the
+    code per forced start order by the stream `corr:wassign`), each a post-condition of a successful run
+    for **every** graph and **every** start order (`Proofs/WAssignPost.lean`):
+    * `algorithm_all_nodes_visited` — every non-terminal node of the graph has been visited (once).
+    * `algorithm_no_placeholder_on_success` — no unresolved cycle placeholder (`R#…` key) is left in the
+      weight map of any node or edge, and no dependency on one is pending; the invariant behind it: every
+      placeholder key of an edge is recorded in `tupleCycleDependencies` of the node it names, every
+      placeholder key of a node comes from one of its own edges, and every placeholder that a call of
+      `calculateNodeWeight` leaves behind names a node of the list it returns — so the empty list the top
+      level insists on means none is left.  Hypothesis (decidable, `noPHTypesB`): no terminal type is itself
+      named `R#…` (`placeholder_named_type_is_visible` shows it is needed).
+    * `algorithm_no_empty_weights_on_success` — no relation, union or intersection, and no exclusion with at
+      least two edges, is left with an empty weight map (`lonely_exclusion_has_empty_weights`: an
+      exclusion with a single edge that nothing refers to is).
+    * `algorithm_weights_positive`, `algorithm_weights_only_for_nodes` — every weight is at least one;
+      weights exist only for visited nodes of the graph.
+    * `algorithm_edge_rule_on_success` — **every edge weight equals its target's weight plus one if the edge
+      is a hop**: after a successful run every edge of every visited node carries `{T ↦ 1}` if it ends in a
+      terminal type `T` or `T:*`, and otherwise, type by type, the *final* weight of its target node, plus
+      one (Infinite stays Infinite) if it is a direct or TTU edge; all maps are key-sorted, so they are
+      determined by their lookups.  The invariant: an edge with weights satisfies the rule or holds just
+      the placeholder of its (unfinished) target; both dependency fix-ups rewrite a map `m` to
+      `(m without R#n) ⊔ (weights of n, if m had R#n)`, a substitution that commutes with "plus one"
+      because the weights of a resolved reference node are all Infinite; and an edge that violates the
+      rule after a call violated it before or targets a node of the returned list.
+
     Not proved: that the fuel of the iteration always suffices (checked per input: `isFixpoint`,
-    `normalB`), and anything about the Go algorithm.  -/
+    `normalB`), and that the port equals the specification.  -/
 namespace FgaVerif.Props.C04
 open FgaVerif.Spec.Weights
 
@@ -164,5 +191,126 @@ example : wellFounded demo = true := by decide
 example : normalB demo (weights demo) = true := by decide
 /-- a finite one: `define p: [doc]` has weight 1 for `doc` -/
 example : lookupW "doc" (stateGet (weights demo) "doc#p") = some 1 := by decide
+
+/-! ### the algorithm (port of `AssignWeights`): post-conditions of success -/
+section algorithm
+open FgaVerif.Model.WGraph FgaVerif.Model.WAssign
+
+/-- A. every non-terminal node has been visited, once, and nothing else has -/
+theorem algorithm_all_nodes_visited (g : G) (order : List String) (st : AState) (h : assignWeights g order = .ok st) :
+    (∀ n ∈ g.nodes, isTerminal (nodeType g n.uniqueLabel) = false → n.uniqueLabel ∈ st.visited) ∧
+    st.visited.Nodup ∧ (∀ v ∈ st.visited, isTerminal (nodeType g v) = false) :=
+  assignWeights_visited g order st h
+
+/-- B. **no unresolved cycle placeholder is ever visible**: no key `R#…` in any node or edge weight map, and
+    no pending tuple-cycle dependency -/
+theorem algorithm_no_placeholder_on_success (g : G) (hn : noPHTypesB g = true) (order : List String) (st : AState)
+    (h : assignWeights g order = .ok st) :
+    (∀ (n k : String) (v : Nat), (k, v) ∈ aget n st.nodeW → k.startsWith "R#" = false) ∧
+    (∀ (r : ERef) (k : String) (v : Nat), (k, v) ∈ aget r st.edgeW → k.startsWith "R#" = false) ∧
+    st.deps = [] := by
+  have hc := assignWeights_clean g (noPHTypesB_sound g hn) order st h
+  exact ⟨fun n k v hk => hc.node n k ⟨v, hk⟩, fun r k v hk => hc.edge r k ⟨v, hk⟩, hc.deps⟩
+
+/-- C. **no relation is left with an empty weight map** (nor a union, an intersection, or an exclusion that has
+    a base and a subtracted operand) -/
+theorem algorithm_no_empty_weights_on_success (g : G) (order : List String) (st : AState)
+    (h : assignWeights g order = .ok st) (n : WNode) (hn : n ∈ g.nodes)
+    (hk : nodeType g n.uniqueLabel = .typeAndRelation ∨
+      (nodeType g n.uniqueLabel = .operator ∧ (nodeLabel g n.uniqueLabel = "union" ∨ nodeLabel g n.uniqueLabel = "intersection" ∨
+        (nodeLabel g n.uniqueLabel = "exclusion" ∧ 2 ≤ (edgesOf g n.uniqueLabel).length)))) :
+    aget n.uniqueLabel st.nodeW ≠ [] :=
+  (assignWeights_nonempty g order st h).1 n hn hk
+
+/-- E. every weight is at least one -/
+theorem algorithm_weights_positive (g : G) (order : List String) (st : AState) (h : assignWeights g order = .ok st) :
+    (∀ (n : String) p, p ∈ aget n st.nodeW → 1 ≤ p.2) ∧ (∀ (r : ERef) p, p ∈ aget r st.edgeW → 1 ≤ p.2) :=
+  ⟨(assignWeights_nonempty g order st h).2.1, (assignWeights_nonempty g order st h).2.2.1⟩
+
+/-- D. **every edge weight equals its target's weight plus one if the edge is a hop** (`bumpE e w` is `w + 1`,
+    or `w` if `w` is `Infinite`, on a direct or TTU edge `e`, and `w` on a rewrite or computed edge; `termKey` is the
+    type `T` of a terminal node `T` or `T:*`) -/
+theorem algorithm_edge_rule_on_success (g : G) (hn : noPHTypesB g = true) (order : List String) (st : AState)
+    (h : assignWeights g order = .ok st) (v : String) (hv : v ∈ st.visited) (i : Nat) (e : WEdge)
+    (he : (edgesOf g v)[i]? = some e) :
+    (isTerminal (nodeType g e.dst) = true → aget (v, i) st.edgeW = [(termKey g e.dst, 1)]) ∧
+    (isTerminal (nodeType g e.dst) = false →
+      ∀ T, wget T (aget (v, i) st.edgeW) = (wget T (aget e.dst st.nodeW)).map (bumpE e)) := by
+  have hr : (v, i) ∈ edgeRefs g v := by
+    unfold edgeRefs
+    refine List.mem_map.2 ⟨i, ?_, rfl⟩
+    rw [List.mem_range]
+    exact (List.getElem?_eq_some_iff.1 he).1
+  exact (assignWeights_edge_rule g (noPHTypesB_sound g hn) order st h).1 v hv (v, i) hr e he
+
+/-- all weight maps of the result are strictly sorted by key, so they are determined by their lookups -/
+theorem algorithm_maps_sorted (g : G) (hn : noPHTypesB g = true) (order : List String) (st : AState)
+    (h : assignWeights g order = .ok st) :
+    (∀ r : ERef, (aget r st.edgeW).Pairwise (fun a b => a.1 < b.1)) ∧
+    (∀ n : String, (aget n st.nodeW).Pairwise (fun a b => a.1 < b.1)) :=
+  (assignWeights_edge_rule g (noPHTypesB_sound g hn) order st h).2
+
+/-- E. weights exist only for visited nodes, which are nodes of the graph -/
+theorem algorithm_weights_only_for_nodes (g : G) (hn : noPHTypesB g = true) (order : List String) (st : AState)
+    (h : assignWeights g order = .ok st) :
+    (∀ n, aget n st.nodeW ≠ [] → n ∈ st.visited ∧ (g.node? n).isSome = true) ∧
+    (∀ r : ERef, aget r st.edgeW ≠ [] → r.1 ∈ st.visited ∧ (g.node? r.1).isSome = true) :=
+  assignWeights_support g (noPHTypesB_sound g hn) order st h
+
+/-! non-vacuity: `define a: [user:*, doc#b]`, `define b: [bot:*, doc#a]` — a tuple cycle; started from `doc#b`
+    the assignment succeeds, and the conclusions are evaluated on the result -/
+def algoCycle : G := {
+  nodes := [⟨"doc#a", "doc#a", .typeAndRelation⟩, ⟨"user:*", "user:*", .wildcard⟩,
+            ⟨"doc#b", "doc#b", .typeAndRelation⟩, ⟨"bot:*", "bot:*", .wildcard⟩],
+  edges := [("doc#a", [⟨"doc#a", "user:*", .direct, "", ["none"]⟩, ⟨"doc#a", "doc#b", .direct, "", ["none"]⟩]),
+            ("doc#b", [⟨"doc#b", "bot:*", .direct, "", ["none"]⟩, ⟨"doc#b", "doc#a", .direct, "", ["none"]⟩])] }
+
+example : noPHTypesB algoCycle = true := by decide +kernel
+example : (match assignWeights algoCycle ["doc#b"] with
+    | .ok st => (st.visited, aget "doc#a" st.nodeW, aget "doc#b" st.nodeW, aget ("doc#b", 1) st.edgeW, st.deps.isEmpty)
+    | .error _ => ([], [], [], [], false)) =
+    (["doc#a", "doc#b"], [("bot", 2147483647), ("user", 2147483647)], [("bot", 2147483647), ("user", 2147483647)],
+      [("bot", 2147483647), ("user", 2147483647)], true) := by decide +kernel
+/-- the hypotheses of C hold for both relations of the example -/
+example : nodeType algoCycle "doc#a" = .typeAndRelation ∧ nodeType algoCycle "doc#b" = .typeAndRelation := by decide
+
+/-- `define a: [user]`, `define b: [doc#a, user:*]`, `define c: a`: the hop `doc#b → doc#a` adds one, the computed
+    edge `doc#c → doc#a` does not -/
+def hopDemo : G := {
+  nodes := [⟨"doc#a", "doc#a", .typeAndRelation⟩, ⟨"user", "user", .specificType⟩, ⟨"doc#b", "doc#b", .typeAndRelation⟩,
+            ⟨"user:*", "user:*", .wildcard⟩, ⟨"doc#c", "doc#c", .typeAndRelation⟩],
+  edges := [("doc#a", [⟨"doc#a", "user", .direct, "", ["none"]⟩]),
+            ("doc#b", [⟨"doc#b", "doc#a", .direct, "", ["none"]⟩, ⟨"doc#b", "user:*", .direct, "", ["none"]⟩]),
+            ("doc#c", [⟨"doc#c", "doc#a", .computed, "", ["none"]⟩])] }
+example : noPHTypesB hopDemo = true := by decide +kernel
+example : (match assignWeights hopDemo ["doc#c", "doc#b"] with
+    | .ok st => (st.visited, aget "doc#a" st.nodeW, aget "doc#b" st.nodeW)
+    | .error _ => ([], [], [])) = (["doc#b", "doc#a", "doc#c"], [("user", 1)], [("user", 2)]) := by
+  decide +kernel
+example : (match assignWeights hopDemo ["doc#c", "doc#b"] with
+    | .ok st => (aget ("doc#b", 0) st.edgeW, aget ("doc#b", 1) st.edgeW, aget ("doc#c", 0) st.edgeW)
+    | .error _ => ([], [], [])) = ([("user", 2)], [("user", 1)], [("user", 1)]) := by
+  decide +kernel
+
+/-- B needs its hypothesis: a terminal type named `R#x` is a visible key that looks like a placeholder -/
+def phNamed : G := {
+  nodes := [⟨"doc#a", "doc#a", .typeAndRelation⟩, ⟨"R#x", "R#x", .specificType⟩],
+  edges := [("doc#a", [⟨"doc#a", "R#x", .direct, "", ["none"]⟩])] }
+theorem placeholder_named_type_is_visible :
+    noPHTypesB phNamed = false ∧
+    (match assignWeights phNamed [] with | .ok st => aget "doc#a" st.nodeW | .error _ => []) = [("R#x", 1)] := by
+  decide +kernel
+
+/-- C needs its hypothesis on exclusions (and on operator labels): an exclusion with a single edge, which nothing
+    refers to, is accepted with an empty weight map -/
+def lonelyExclusion : G := {
+  nodes := [⟨"exclusion:0", "exclusion", .operator⟩, ⟨"user", "user", .specificType⟩],
+  edges := [("exclusion:0", [⟨"exclusion:0", "user", .direct, "", ["none"]⟩])] }
+theorem lonely_exclusion_has_empty_weights :
+    (match assignWeights lonelyExclusion [] with
+      | .ok st => (st.visited, aget "exclusion:0" st.nodeW) | .error _ => ([], [("", 0)])) = (["exclusion:0"], []) := by
+  decide +kernel
+
+end algorithm
 
 end FgaVerif.Props.C04
